@@ -133,12 +133,20 @@ def _lens_cases(ctx, nl, rays_per):
                 hist['shapes'][s['shape'][0]] = hist['shapes'].get(s['shape'][0], 0) + 1
                 hist['mirrors'] += int(s['refl'])
                 hist['tilted'] += int(bool(s['rx'] or s['ry']))
-            for ri in range(rays_per):
-                Hy = rng.choice([0.0, 1.0, rng.uniform(-1, 1)])
-                Hx = rng.choice([0.0, 0.0, rng.uniform(-1, 1)])
-                rr, th = rng.choice([0.3, 0.7, 1.0, 1.4 if ri % 5 == 4 else 0.9]), rng.uniform(0, 6.283)
+            # fixed corpus lenses are also traced with the rays a user writes first: the axial ray and the four marginal
+            # rays exactly on the pupil axes, on axis (numerically special: r = 0, x or y exactly 0, the exact rim)
+            exact = [(0.0, 0.0, 0.0, 0.0), (0.0, 0.0, 0.0, 1.0), (0.0, 0.0, 0.0, -1.0), (0.0, 0.0, 1.0, 0.0), (0.0, 0.0, -1.0, 0.0)] \
+                if li < len(corp) else []
+            hist['exact_axis_and_rim_rays'] = hist.get('exact_axis_and_rim_rays', 0) + len(exact)
+            for ri in range(rays_per + len(exact)):
                 import math
-                Px, Py = rr * math.cos(th), rr * math.sin(th)
+                if ri >= rays_per:
+                    Hx, Hy, Px, Py = exact[ri - rays_per]
+                else:
+                    Hy = rng.choice([0.0, 1.0, rng.uniform(-1, 1)])
+                    Hx = rng.choice([0.0, 0.0, rng.uniform(-1, 1)])
+                    rr, th = rng.choice([0.3, 0.7, 1.0, 1.4 if ri % 5 == 4 else 0.9]), rng.uniform(0, 6.283)
+                    Px, Py = rr * math.cos(th), rr * math.sin(th)
                 r = tracecorr.impl_trace(o, Hx, Hy, Px, Py, wv)
                 if r[0] == 'err':
                     hist['trace_errors'][r[1]] = hist['trace_errors'].get(r[1], 0) + 1
